@@ -128,6 +128,21 @@ PROPERTIES = {
              "old": "            self._cnt <<= self._count_ if self._cnt == self._count_ else (self._cnt + 1)", "new": "            self._cnt <<= self._cnt + 1"},
         ],
     },
+    "C20": {
+        "modules": ["contracts.core_models", "contracts.c09_arith", "contracts.c13_types", "contracts.c13_views", "contracts.c20_regs", "contracts.c20_axi"],
+        "level": "other",
+        "explanation": "only the per-function half of the statement is within reach of contracts and is what this check decides: (0) PROVED with a sidecar loop invariant (one iteration = one clock, arbitrary valid timing on both write channels, either order): Axi4Light.await_write_request returns exactly the address/prot presented in the clock the address channel was taken and the data/strobe presented in the clock the data channel was taken, leaves the loop exactly when both were taken and withdraws each ready once its channel was taken; (1) PROVED from the real source for symbolic address width, address, offset and size: RegisterObject._contains_addr_(addr) <=> offset <= addr < offset + size on both the shift-compare path (power-of-two size at an aligned offset) and the range-compare path -- 'exactly the addressed register', 'unmapped addresses select nothing'; (2) mechanical and exhaustive over the source: every stage of the bus write path that receives the byte-strobe mask applies it, hands it on, or stores nothing (known finding: field-based Register drops it); (3) BOUNDED (labelled): stretch(strb, k) and Mask.apply / apply_mask give new bits exactly in the strobed bytes. NOT decided by this check: the AXI4-Lite handshakes (each transaction answered exactly once, valid never withdrawn before ready, no response without request, update exactly when the access completes) -- properties of coroutines compiled to state machines over all valid/ready timings, i.e. whole histories of a clocked design; no contract over one call can state them and no simulator is available.",
+        "assumptions": COMMON_ASSUME + [
+            "first-match dispatch over the flattened register list (connect_addr_map: `for reg in regs: if reg._contains_addr_(addr): ...; break`) selects exactly one register because _flatten_ asserts strictly increasing, non-overlapping ranges; that assertion and the loop are read, not under contract",
+            "the handshake half of C20 is not decided (see explanation); a change confined to await_write_request / send_*_response / proc_read / proc_write is not detected by this check",
+            "is_pow_two / int_log_2 are uninterpreted in the decode proof, constrained only for the object's size",
+        ],
+        "extra": ["contracts.c20_extra.mask_dataflow", "contracts.c20_extra.field_kinds", "contracts.c20_extra.mask_sweep"],
+        "canaries": [
+            {"name": "decode-alignment", "contract": "cohdl.std.reg.reg:RegisterObject._contains_addr_", "case": "pow2-unaligned", "file": "cohdl/std/reg/reg.py",
+             "old": "        if std.is_pow_two(unit_count) and global_offset % unit_count == 0:", "new": "        if std.is_pow_two(unit_count):"},
+        ],
+    },
     "C17": {
         "modules": ["contracts.core_models", "contracts.c17_proofs"],
         "level": "other",
